@@ -36,7 +36,7 @@ impl Proj {
     }
 }
 
-const FLAGS: &[&str] = &["rec", "enum", "phys", "inc", "prot", "attr", "subp", "op", "proc", "alias", "comp", "gpk", "lib2", "cfg", "ctx", "gen", "blk", "inst", "misc", "ieee"];
+const FLAGS: &[&str] = &["rec", "enum", "phys", "inc", "prot", "attr", "subp", "op", "proc", "alias", "comp", "gpk", "lib2", "cfg", "ctx", "gen", "blk", "inst", "misc", "ieee", "more", "uattr"];
 
 /// `{key}`: identifier of the project's name table in a random letter case.  `@flag: line`: only when the
 /// feature is enabled (`@a&b:` needs both).
@@ -255,6 +255,77 @@ begin
 end architecture {sim};
 "#;
 
+
+const T_MORE: &str = r#"use std.textio.all;
+package {pkx} is
+  function {gf} generic (type {t}) parameter ({x} : {t}) return {t};
+  function {gfi} is new {gf} generic map ({t} => integer);
+  file {fh} : text;
+  procedure {rd}(file {f} : text; variable {v} : out integer);
+  type {sel_t} is ({a0}, {a1});
+end package {pkx};
+
+package body {pkx} is
+  function {gf} generic (type {t}) parameter ({x} : {t}) return {t} is
+  begin
+    return {x};
+  end function {gf};
+  procedure {rd}(file {f} : text; variable {v} : out integer) is
+    variable {ln} : line;
+  begin
+    readline({f}, {ln});
+    read({ln}, {v});
+  end procedure {rd};
+end package body {pkx};
+
+package {gpx} is
+  generic ({g_w} : natural := 4);
+  constant {depth} : natural := {g_w} * 2;
+end package {gpx};
+
+package {gp2} is
+  generic (package {ip} is new work.{gpx} generic map (<>));
+  constant {c9} : natural := {ip}.{depth};
+end package {gp2};
+
+package {gpxi} is new work.{gpx} generic map ({g_w} => 3);
+package {gp2i} is new work.{gp2} generic map ({ip} => work.{gpxi});
+
+use work.{pkx}.all;
+entity {ex} is
+  port ({sel} : in {sel_t}; {o} : out bit);
+end entity {ex};
+
+architecture {ax} of {ex} is
+  constant {kx} : integer := {gfi}(3) + work.{gp2i}.{c9};
+  signal {vx} : bit_vector(3 downto 0);
+begin
+  {cg} : case {sel} generate
+    when {b0} : {a0} =>
+      {o} <= '0';
+    when {b1} : {a1} =>
+      {o} <= {vx}(1);
+  end generate {cg};
+  {px} : process
+    variable {nx} : integer;
+  begin
+    {rd}({fh}, {nx});
+    {l1} : for {ix} in {vx}'range loop
+      {l2} : if {vx}({ix}) = '1' then
+        {nx} := {nx} + 1;
+      end if {l2};
+    end loop {l1};
+    {cs} : case {sel} is
+      when {a0} => null;
+      when others => null;
+    end case {cs};
+@uattr:    assert {vx}'{nosuch}({nx}) = 1;
+@uattr:    assert {nosuch2}'length({nx}) = {vx}'{nosuch}({ix});
+    wait;
+  end process {px};
+end architecture {ax};
+"#;
+
 const T_LIB2: &str = r#"package {pk2} is
   constant {c2} : integer := 7;
 end package {pk2};
@@ -266,6 +337,8 @@ const KEYS: &[&str] = &[
     "al_add", "comp_c", "g_n", "ci", "co", "c_sum", "c2", "pv", "tmp", "d", "lp", "i", "wl", "res", "gp", "g_w", "elem_t", "depth", "wrap",
     "x", "gpi", "sub", "rtl", "top", "clk", "din", "dout", "str", "s1", "s2", "s3", "st", "rs", "cnt", "k", "k3", "k4", "lgpi", "k2", "s1_al",
     "vec", "mem_t", "mem", "loc", "u0", "u1", "u2", "blk", "bs", "gen", "gi", "gs", "ifg", "ga", "gb", "proc", "cfg", "ctx", "tb", "sim", "c", "sl", "slv", "un",
+    "pkx", "gf", "t", "gfi", "fh", "rd", "f", "sel_t", "a0", "a1", "ln", "gpx", "gp2", "ip", "c9", "gpxi", "gp2i", "ex", "sel", "o", "ax", "kx", "vx",
+    "cg", "b0", "b1", "px", "nx", "l1", "ix", "l2", "cs", "nosuch", "nosuch2",
 ];
 const KEYS2: &[&str] = &["dut", "dut2"];
 
@@ -387,6 +460,13 @@ pub fn gen_base(rng: &mut Rng, idx: usize) -> Proj {
     }
     let ieee = rng.chance(1, 8);
     flags.insert("ieee", ieee);
+    // an unresolved user attribute with an argument: the one `return_if_finished!(search_pos_with_ref(..))` site
+    let uattr = rng.chance(1, 6);
+    flags.insert("uattr", uattr);
+    if uattr {
+        flags.insert("more", true);
+    }
+    let more = flags["more"];
     let comments = rng.chance(1, 3);
     let gpk = flags["gpk"];
     let lib2 = flags["lib2"];
@@ -420,11 +500,15 @@ pub fn gen_base(rng: &mut Rng, idx: usize) -> Proj {
             files.push(PFile { lib: "lib".into(), name: "rest.vhd".into(), text: format!("{}\n{}\n{}", g, e, tb) });
         }
     }
+    if more {
+        let t = fill(T_MORE, &flags, &names, rng, comments);
+        files.push(PFile { lib: "lib".into(), name: "x.vhd".into(), text: t });
+    }
     if lib2 {
         let l2 = names.u("lib2", &mut Rng::new(0)).to_lowercase();
         files.push(PFile { lib: l2, name: "q.vhd".into(), text: fill(T_LIB2, &flags, &names, rng, comments) });
     }
-    Proj { name: format!("gen{idx}"), kind: "generated".into(), ieee, files }
+    Proj { name: format!("gen{idx}"), kind: if uattr { "generated-erroneous".into() } else { "generated".into() }, ieee, files }
 }
 
 /// crude token scanner for the mutations: (start, end, is_word)
